@@ -633,7 +633,13 @@ func (p *pp) handleMethods(verb rune) (handled bool) {
 		case i.SafeMessager:
 			handled = true
 			defer p.catchPanic(p.arg, verb, "SafeMessager")
-			defer p.startSafeOverride().restore()
+			switch verb {
+			case 'v', 's', 'x', 'X', 'q':
+				// Only the message is declared safe. Under any other verb
+				// fmtString reports a bad verb, which prints the value
+				// itself: its fields must keep their own classification.
+				defer p.startSafeOverride().restore()
+			}
 			p.fmtString(v.SafeMessage(), verb)
 			return
 
